@@ -50,6 +50,8 @@ type Solver struct {
 	LastErr   string
 	log       io.Writer
 	dead      bool
+	asserted  []*Term // assertions since the last Reset (replayed after a restart)
+	kz        map[int]uint64
 }
 
 func NewSolver(kind string, intMode bool, timeoutMs int) (*Solver, error) {
@@ -104,6 +106,7 @@ func (s *Solver) start() error {
 }
 
 func (s *Solver) resetState() {
+	s.asserted = nil
 	s.defined = map[int]bool{}
 	s.declared = map[string]bool{}
 	s.buf.Reset()
@@ -565,6 +568,13 @@ func (s *Solver) intExpr(t *Term) string {
 			a, b = b, a
 		}
 		if !b.IsConst() {
+			if (t.Op == OpOr || t.Op == OpXor) && ^s.knownZero(a)&^s.knownZero(b)&mask(T.W) == 0 {
+				// no common one-bit possible: or/xor is addition (no carry, no overflow)
+				if T.S {
+					return s.fromUnsigned(fmt.Sprintf("(+ %s %s)", s.unsignedRep(a), s.unsignedRep(b)), T)
+				}
+				return fmt.Sprintf("(+ %s %s)", s.ref(a), s.ref(b))
+			}
 			return s.viaBV(t)
 		}
 		c := b.V & mask(T.W)
@@ -693,6 +703,7 @@ func (s *Solver) floatExpr(t *Term) string {
 
 // Assert adds t to the current context.
 func (s *Solver) Assert(t *Term) {
+	s.asserted = append(s.asserted, t)
 	r := s.ref(t)
 	fmt.Fprintf(&s.buf, "(assert %s)\n", r)
 }
@@ -701,10 +712,13 @@ func (s *Solver) Assert(t *Term) {
 // When sat and wantModel, the values of vars are returned.
 func (s *Solver) Check(extra *Term, vars []*Term, wantModel bool) (Result, map[string]uint64) {
 	if s.dead {
-		s.Stats.Queries++
-		s.Stats.Unknown++
-		s.LastErr = "solver process died (restart pending)"
-		return Unknown, nil
+		// the previous query killed the process: restart and re-assert the path condition so far
+		log := s.asserted
+		s.restart()
+		s.asserted = nil
+		for _, t := range log {
+			s.Assert(t)
+		}
 	}
 	// make sure all vars are declared (at the base level) so get-value is well-formed
 	for _, v := range vars {
